@@ -148,7 +148,8 @@ def run(ctx):
     streams = legacy_streams(rng, 400 if ctx.quick else 4000)
     loads = [{"inp": s, "cfg": [a, b], "stream": (i % 3 == 0)} for i, s in enumerate(streams) for a, b in itertools.product([False, True], repeat=2)]
     loads += [{"inp": s, "cfg": [False, False], "stream": (i % 2 == 0), "defaults": True} for i, s in enumerate(streams[:150])]
-    job = {"dump": models + gen, "modes": ["dumps", "stream"], "load": loads}
+    # (the same values serialized by eight threads at once: Channel.send serializes on the calling thread)
+    job = {"dump": models + gen, "modes": ["dumps", "stream"], "load": loads, "threads": models[::3] + gen[:300]}
     cases = sc.record(ctx, job)["cases"]
     per_interp = {"venv": len(cases)}
     # the same format under every available interpreter (smaller sample in the quick tier)
